@@ -272,6 +272,169 @@ def nan_tolerant_equal(a, b):
                for x, y in zip(wa, wb))
 
 
+# --------------------------------------------------------------------------- energy-loss models
+E0 = 1e-5            # ionization_energy()
+PARTICLES = ["e-", "e+", "mu-", "mu+", "p"]
+MATERIALS = ["C", "Ar(gas)", "Cu", "Pb", "Ar(liquid)"]
+E_RANGE = {0: (-3, 3), 1: (-3, 3), 2: (-2.3, 4), 3: (-2.3, 4), 4: (-1.3, 4)}   # log10 MeV
+
+
+def eloss_world(exe):
+    """material / particle data dumped by the RUNNING code (harness/eloss.cc)"""
+    _, o = vlib.run_lines([exe], ["consts"] + ["matdata %x" % m for m in range(5)])
+    c = o[0].split()
+    w = {"re": c[0], "pi": c[1], "me": c[2],
+         "part": [(c[3 + 2 * i], c[4 + 2 * i]) for i in range(5)], "mat": []}
+    for m in range(5):
+        t = o[1 + m].split()
+        w["mat"].append({"eldens": t[0], "numdens": t[1], "matdata": t[2:10],
+                         "I": fl(t[2]), "logI": fl(t[3]), "E1": fl(t[6]), "E2": fl(t[7]),
+                         "logE1": fl(t[8]), "logE2": fl(t[9]), "f1": fl(t[4]), "f2": fl(t[5])})
+    return w
+
+
+def helper_words(w, m, p, energy, cutoff, mean, step):
+    return (["%x" % m, "%x" % p, w["mat"][m]["eldens"], w["me"], w["part"][p][0], w["part"][p][1],
+             "1" if p == 0 else "0", w["re"]] + [hx(v) for v in (energy, cutoff, mean, step)])
+
+
+def py_helper(w, m, p, energy, cutoff, mean, step):
+    """independent (python float) evaluation of EnergyLossHelper, used only to steer generators
+    and to label branches"""
+    me, mp = fl(w["me"]), fl(w["part"][p][0])
+    if mean < E0:
+        return "none", 0.0, 0.0, 0.0, 0.0
+    gamma = 1 + energy / mp
+    b2 = 1 - (mp / (energy + mp)) ** 2
+    tm = 2 * me * b2 * gamma * gamma
+    if p == 0:
+        ratio, tmax = 1.0, 0.5 * energy
+    else:
+        ratio = me / mp
+        tmax = tm / (1 + ratio * (2 * gamma + ratio))
+    emax = min(cutoff, tmax)
+    if emax <= E0:
+        return "none", emax, b2, tm, 0.0
+    q = fl(w["part"][p][1])
+    bohr = (2 * math.pi * fl(w["re"]) ** 2 * me * fl(w["mat"][m]["eldens"]) * q * q * emax * step
+            * (1 / b2 - 0.5))
+    if ratio >= 1 or mean < 10 * emax or tmax > 2 * emax:
+        mod = "urban"
+    elif mean * mean >= 4 * bohr:
+        mod = "gaussian"
+    else:
+        mod = "gamma"
+    return mod, emax, b2, tm, bohr
+
+
+def urban_branch(md, mean, emax, tm, b2):
+    """which constructor / sampling branches an Urban case reaches (python evaluation)"""
+    ls = 0.5 * min(1e-3 / emax, 1.0) + 1
+    ml = mean / ls
+    x1 = x2 = 0.0
+    tag = "no-exc(Emax<=I)"
+    if emax > md["I"]:
+        w = math.log(tm) - b2
+        if w > md["logI"]:
+            if w > md["logE2"]:
+                c = ml * (1 - 0.56) / (w - md["logI"])
+                x1 = c * md["f1"] * (w - md["logE1"]) / md["E1"]
+                x2 = c * md["f2"] * (w - md["logE2"]) / md["E2"]
+                tag = "two-level"
+            else:
+                x1 = ml * (1 - 0.56) / md["E1"]
+                tag = "slow-window"
+            sc = 0.5 + 3.5 * math.sqrt(x1 / 42) if x1 < 42 else 4.0
+            x1 /= sc
+        else:
+            tag = "no-exc(w<=w0)"
+    xi = ml * (emax - E0) / (emax * E0 * math.log(emax / E0))
+    if x1 + x2 > 0:
+        xi *= 0.56
+    tags = [tag]
+    if x1 > 8 and x2 > 8:
+        tags.append("both-levels-gauss")
+    elif x1 > 8 or x2 > 8:
+        tags.append("one-level-gauss")
+    if 0 < x1 <= 8 or 0 < x2 <= 8:
+        tags.append("exc-poisson")
+    tags.append("ion-fast" if xi > 8 else "ion-poisson")
+    return tags, (x1, x2, xi)
+
+
+def gen_urban_params(rng, w):
+    """(m, mean, emax, two_mebsgs, beta_sq) covering every constructor branch"""
+    m = rng.below(5)
+    md = w["mat"][m]
+    b2 = rng.choice([1e-4, 0.5, 0.999]) if rng.chance(1, 6) else min(0.999999, logu(rng, -4, 0))
+    k = rng.below(8)
+    if k == 0:                                    # Emax <= I
+        emax = E0 * (1.0001 + rng.unit() * (md["I"] / E0 - 1.0001))
+    elif k == 1:
+        emax = rng.choice([1e-3, 2e-3, 5e-4, md["I"] * 1.0000001, 1.0])
+    else:
+        emax = logu(rng, math.log10(md["I"]), 2)
+    c = rng.below(6)
+    if c == 0:                                    # w <= w0
+        wv = md["logI"] - rng.unit() * 3
+    elif c <= 2 and md["logI"] < md["logE2"]:     # slow-particle window  w0 < w <= log E2
+        wv = md["logI"] + (md["logE2"] - md["logI"]) * (1.0 if rng.chance(1, 10) else rng.unit())
+    else:
+        wv = md["logE2"] + 10 ** (-3 + 4.3 * rng.unit())
+    tm = math.exp(wv + b2)
+    mean = logu(rng, -5, 1.5) if rng.chance(3, 4) else logu(rng, -2, 0.5)
+    return m, mean, emax, tm, b2
+
+
+def gen_eloss_lines(rng, w, n):
+    """op lines for harness/eloss.cc + model, with branch tags"""
+    lines, tags = [], []
+    for m in range(5):
+        md = w["mat"][m]
+        lines.append("uparams %x %s %s %s |" % (m, md["eldens"], md["numdens"], md["matdata"][0]))
+        tags.append(["uparams"])
+    for _ in range(n):
+        k = rng.below(10)
+        if k < 5:
+            m, mean, emax, tm, b2 = gen_urban_params(rng, w)
+            md = w["mat"][m]
+            tg, _ = urban_branch(md, mean, emax, tm, b2)
+            head = ["%x" % m] + md["matdata"] + [hx(v) for v in (mean, emax, tm, b2)]
+            if k == 0:
+                lines.append("urbanctor " + " ".join(head) + " |")
+            else:
+                sc = [rnd_u(rng) for _ in range(70 if rng.chance(5, 6) else rng.range(0, 30))]
+                lines.append("urban " + " ".join(head) + " | " + " ".join(hx(u) for u in sc))
+            tags.append(["urban:" + t for t in tg])
+        else:
+            m, p = rng.below(5), rng.below(5)
+            lo, hi = E_RANGE[p]
+            energy = logu(rng, lo, hi)
+            step = logu(rng, -5, 1)
+            c = rng.below(4)
+            cutoff = rng.choice([1e-3, 1e-2, 0.1, 1.0]) if rng.chance(1, 3) else logu(rng, -4.5, 1)
+            _, emax0, _, _, _ = py_helper(w, m, p, energy, 1e30, 1.0, step)     # emax0 = Tmax
+            if c == 0 and p >= 2:
+                cutoff = emax0 * (0.5 + rng.unit())           # Tmax <= 2 cutoff : gaussian / gamma
+            mean = energy * logu(rng, -6, -0.02)
+            if c <= 1 and p >= 2:
+                mean = min(cutoff, emax0) * logu(rng, 1, 3.5)
+            if rng.chance(1, 30):
+                mean = E0 * rng.choice([0.5, 0.999, 1.0, 1.001])
+            hw = helper_words(w, m, p, energy, cutoff, mean, step)
+            mod = py_helper(w, m, p, energy, cutoff, mean, step)[0]
+            if k < 7:
+                lines.append("helper " + " ".join(hw) + " |")
+            else:
+                sc = [rnd_u(rng) for _ in range(70 if rng.chance(5, 6) else rng.range(0, 20))]
+                lines.append("eloss " + " ".join(hw + w["mat"][m]["matdata"]) + " | "
+                             + " ".join(hx(u) for u in sc))
+            tags.append(["helper:" + mod + ":" + PARTICLES[p]])
+    lines += ["helper 0 0 1 |", "urban 0 |", "eloss |", "uparams 9 0 0 0 |"]
+    tags += [["malformed"]] * 4
+    return lines, tags
+
+
 # --------------------------------------------------------------------------- impl-side oracle
 BOUNDARY = {}      # samples that attain / pass the open end of a half-open support by rounding
 
